@@ -324,6 +324,15 @@ def _check_shape(dom, dim, unit, pts, bad):
         if dN.shape != (dim, 2 ** dim):
             bad("der_shape", str(dN.shape))
             return
+        if dim == 2:
+            # the z entry of the evaluation point is optional in 2D (assembly.py always passes three entries): it must not
+            # change anything
+            x3 = np.array([x[0], x[1], p[2] * unit[2]])
+            N3, dN3 = np.asarray(dom.eval_shape_fun(x3)), np.asarray(dom.eval_shape_fun_der(x3))
+            if N3.shape != N.shape or not np.allclose(N3, N, rtol=0, atol=1e-14):
+                bad("shape_value_with_z_entry", f"2D domain: N(x, y, z) = {N3} but N(x, y) = {N} at {x3}")
+            if dN3.shape != dN.shape or not np.allclose(dN3, dN, rtol=0, atol=1e-13 / h.min()):
+                bad("der_with_z_entry", f"2D domain: dN(x, y, z) = {dN3} but dN(x, y) = {dN} at {x3}")
         if np.abs(dN.sum(axis=1)).max() > 1e-12 / h.min():
             bad("der_sum_zero", f"sum_l dN_l = {dN.sum(axis=1)} at {x}")
         for a in range(dim):
